@@ -21,6 +21,7 @@ type c11Case struct {
 	Routes    []int        `json:"routes"` // instance per HTTP request (cycled)
 	Compress  bool         `json:"compress"`
 	CancelReq int          `json:"cancel_request"` // producers: index of the HTTP request that is a cancel (-1 none)
+	Dyncast   bool         `json:"dyncast,omitempty"`
 }
 
 func genC11(t *rapid.T) c11Case {
@@ -60,6 +61,28 @@ func genC11(t *rapid.T) c11Case {
 			}
 		}
 	}
+	if rapid.IntRange(0, 5).Draw(t, "dyncast") == 0 {
+		// a long dynamic exchange with castable inputs, spread over two or three
+		// instances that all keep a call cache: every instance meets the stream
+		// first through a cache miss and again through a hit
+		call = lib.CallSpec{Kind: "stream", Method: "s_dyn", CancelAt: -1,
+			Stream: &lib.StreamScript{ID: lib.CallID(0), InitOutcome: "ok", DynKind: "exchange", DynInput: true}}
+		nt := rapid.IntRange(4, 7).Draw(t, "dynturns")
+		typ := []string{"int32", "int16", "int32", "int64"}[rapid.IntRange(0, 3).Draw(t, "dyntype")]
+		for i := 0; i < nt; i++ {
+			call.Stream.Turns = append(call.Stream.Turns, lib.TurnSpec{Act: "emit", Rows: 1})
+			call.Inputs = append(call.Inputs, lib.InputSpec{Type: typ, Vals: []int64{int64(i + 1)}})
+		}
+		ninst = rapid.IntRange(2, 3).Draw(t, "dynninst")
+		c.Caches, c.Routes = nil, nil
+		for i := 0; i < ninst; i++ {
+			c.Caches = append(c.Caches, []int{-1, -1, 0}[rapid.IntRange(0, 2).Draw(t, "dyncache")])
+		}
+		for i := 0; i < 8; i++ {
+			c.Routes = append(c.Routes, rapid.IntRange(0, ninst-1).Draw(t, "dynroute"))
+		}
+		c.Dyncast = true
+	}
 	if rapid.Bool().Draw(t, "rid") {
 		call.Opts.RequestID = "rid"
 	}
@@ -96,6 +119,9 @@ func runC11(c c11Case) (out lib.Outcome) {
 	call := c.Call
 	kind := call.ConcreteKind()
 	out.Label("kind:" + kind)
+	if c.Dyncast {
+		out.Label("dynamic-cast-over-cached-instances")
+	}
 	if m, _ := lib.MethodKind(call.Method); m == "dynamic" {
 		out.Label("dynamic")
 		if call.Stream.DynInput && kind == "exchange" {
@@ -206,7 +232,7 @@ var propC11 = lib.Prop[c11Case]{
 		"Oracle: the client's view (header, ordered data batches with values/schema/user metadata, ordered log level/message/extras, terminating error type+message) over HTTP equals the view over a pipe. Non-trivial: >=2 continuations and (limit>=1 or >=2 instances or a cast).",
 	Gen:          genC11,
 	Run:          runC11,
-	Essential:    []string{"kind:producer", "kind:exchange", "dynamic-input-schema", "cast", "continuations>=2", "producer-cancel"},
+	Essential:    []string{"kind:producer", "kind:exchange", "dynamic-input-schema", "cast", "continuations>=2", "producer-cancel", "dynamic-cast-over-cached-instances"},
 	EssentialMin: 300,
 }
 
